@@ -458,12 +458,18 @@ def run_receive(inp):
             return
         await case.settle()
         try:
-            res = await asyncio.wait_for(pend['U'], 1.0)
+            if not pend['U'].done():
+                for _ in range(20):
+                    await asyncio.sleep(0)
+            if not pend['U'].done():
+                pend['U'].cancel()
+                raise LookupError('still pending after its Data was delivered')
+            res = await pend['U']
             if fe.result_view(res)[1] != b'unrelated-content':
                 viol('unrelated-pending-damaged', 'unrelated Interest got %r' % (fe.result_view(res),))
         except Exception as e:
-            viol('unrelated-pending-damaged', 'after packet %s the unrelated pending Interest ended with %s instead of its '
-                 'Data' % (wire.hex()[:80], R.exc_name(e)))
+            viol('unrelated-pending-damaged', 'after packet %s the unrelated pending Interest ended with %s (%s) instead of '
+                 'its Data' % (wire.hex()[:80], R.exc_name(e), e))
         hcalls = [c for c in fe.log if c.hid == 'H'][n0:]
         if len(hcalls) != 1 or hcalls[0].name_bytes() != tuple(H_PREFIX + [R.comp('x')]):
             viol('unrelated-handler-damaged', 'after packet %s the unrelated handler was invoked %d times for its Interest'
